@@ -315,7 +315,8 @@ NAMES = ["Coulomb", "Harmonic", "Bending", "LennardJones", "Repulsive", "A", "Xy
 
 @st.composite
 def factor_case(draw):
-    n = draw(st.integers(1, 4))
+    # molecule sizes up to 8: the second object's indices then have two digits (10..15)
+    n = draw(st.one_of(st.integers(1, 4), st.integers(1, 4), st.integers(5, 8)))
     roots = draw(st.integers(2, 5))
     n_factors = draw(st.integers(1, 4))
     names = draw(st.lists(st.sampled_from(NAMES), min_size=n_factors, max_size=n_factors, unique=True))
